@@ -385,6 +385,10 @@ def gen_fit(draw, tier="quick", mode="iso", kind="recover"):
         # keep len_low + len_scale (the effective range) fixed
         full["len_low"] = ls * f / (1.0 + f)
         ls = ls / (1.0 + f)
+    nu_start = None
+    if cls == "Matern" and draw(st.booleans()):
+        # the start value of nu sits exactly on a half-integer order (closed-form special cases), the truth next to it
+        nu_start, full["nu"] = draw(st.sampled_from([(0.5, 0.65), (0.5, 0.42), (1.5, 1.25), (1.5, 1.8), (2.5, 2.2)]))
     truth["len_scale"] = float(ls)
     truth["opt"] = full
     if mode == "dir":
@@ -404,6 +408,8 @@ def gen_fit(draw, tier="quick", mode="iso", kind="recover"):
         else:
             # 'recover_*' aims at the identifiable configuration: shape parameters mostly prescribed
             stat[nm] = draw(st.sampled_from(["fit"] * 3 + ["off"] * 3 + ["fix"] * 4))
+    if nu_start is not None:
+        stat["nu"] = "fit"
     if mode == "dir":
         anis_mode = draw(st.sampled_from(["fit", "fit", "off", "fix"]))
     else:
@@ -452,6 +458,8 @@ def gen_fit(draw, tier="quick", mode="iso", kind="recover"):
         return float(v)
 
     def near(nm, lo=None, hi=None):
+        if nm == "nu" and nu_start is not None:
+            return float(nu_start)
         t, sc = tv[nm], _scale(nm, tv)
         d = draw(_delta())
         if wild and draw(st.integers(0, 3)) == 0:
